@@ -21,3 +21,5 @@ func gunzipBytes(b []byte, max int) ([]byte, error) {
 	}
 	return io.ReadAll(io.LimitReader(r, int64(max)+1))
 }
+
+var errEOF = io.EOF
